@@ -457,15 +457,75 @@ fn c02_impl<F: Impl>(chk: &Check, s: u8, d1: u8, d2: u8, e: &Expect) {
     }
 }
 
+/// Method-call syntax on the CONCRETE types (an inherent method of the same name would win over the
+/// trait method there) and through one more level of reference (`(&&x).m()` resolves to an
+/// `impl ShortMessage for &T`, if the crate ever adds one, and to the type's own impl otherwise).
+/// All must agree with the table.
+macro_rules! concrete_accessors {
+    ($chk:expr, $x:expr, $tyname:expr, $e:expr, $s:expr, $d1:expr, $d2:expr, $structured:expr) => {{
+        let x = $x;
+        let e: &Expect = $e;
+        let mut bad: Vec<(&'static str, String)> = Vec::new();
+        macro_rules! both {
+            ($name:literal, $call:ident, $map:expr, $want:expr) => {{
+                let direct = $map(x.$call());
+                let via_ref = $map((&&x).$call());
+                if direct != $want {
+                    bad.push(($name, format!("{}.{}() with method-call syntax on the concrete type = {:?}, expected {:?}", $tyname, $name, direct, $want)));
+                }
+                if via_ref != $want {
+                    bad.push(($name, format!("(&&{}).{}() = {:?}, expected {:?}", $tyname, $name, via_ref, $want)));
+                }
+            }};
+        }
+        both!("channel", channel, |o: Option<Channel>| o.map(|c| c.get()), e.channel);
+        both!("key_number", key_number, |o: Option<KeyNumber>| o.map(|c| c.get()), e.key);
+        both!("velocity", velocity, |o: Option<U7>| o.map(|c| c.get()), e.vel);
+        both!("controller_number", controller_number, |o: Option<ControllerNumber>| o.map(|c| c.get()), e.ctrl);
+        both!("control_value", control_value, |o: Option<U7>| o.map(|c| c.get()), e.cval);
+        both!("program_number", program_number, |o: Option<U7>| o.map(|c| c.get()), e.prog);
+        both!("pressure_amount", pressure_amount, |o: Option<U7>| o.map(|c| c.get()), e.pressure);
+        both!("pitch_bend_value", pitch_bend_value, |o: Option<U14>| o.map(|c| c.get()), e.bend);
+        both!("is_note", is_note, |b: bool| b, e.is_note);
+        both!("is_note_on", is_note_on, |b: bool| b, e.note_on);
+        both!("is_note_off", is_note_off, |b: bool| b, e.note_off);
+        both!("type", r#type, |t: ShortMessageType| u8::from(t), e.type_byte);
+        both!("super_type", super_type, |t: MessageSuperType| sup_of(t), e.sup);
+        both!("main_category", main_category, |t: MessageMainCategory| t == MessageMainCategory::Channel, e.is_channel);
+        both!("to_structured", to_structured, |t: StructuredShortMessage| t, expected_structured($s, $d1, $d2));
+        let wantb = if $structured { e.canon } else { ($s, $d1, $d2) };
+        both!("to_bytes", to_bytes, |t: (u8, U7, U7)| (t.0, t.1.get(), t.2.get()), wantb);
+        both!("status_byte", status_byte, |t: u8| t, wantb.0);
+        both!("data_byte_1", data_byte_1, |t: U7| t.get(), wantb.1);
+        both!("data_byte_2", data_byte_2, |t: U7| t.get(), wantb.2);
+        for (rule, d) in bad {
+            vio!($chk, "C02", rule, format!("{}-concrete/{}", $tyname, type_class($s)), format!("triple|{}|{}|{}", $s, $d1, $d2), "{} ({:#04X},{},{}): {}", $tyname, $s, $d1, $d2, d);
+        }
+    }};
+}
+
+pub fn c02_concrete(chk: &Check, s: u8, d1: u8, d2: u8, e: &Expect) {
+    let r = catch(|| {
+        let raw = RawShortMessage::from_bytes((s, u7(d1), u7(d2))).unwrap();
+        let st = StructuredShortMessage::from_bytes((s, u7(d1), u7(d2))).unwrap();
+        concrete_accessors!(chk, raw, "RawShortMessage", e, s, d1, d2, false);
+        concrete_accessors!(chk, st, "StructuredShortMessage", e, s, d1, d2, true);
+    });
+    if let Err(p) = r {
+        vio!(chk, "C02", "accessor-panics", format!("concrete/{}", type_class(s)), format!("triple|{}|{}|{}", s, d1, d2), "({:#04X},{},{}): accessor on a concrete type panicked: {}", s, d1, d2, p);
+    }
+}
+
 pub fn c02_triple(chk: &Check, s: u8, d1: u8, d2: u8) {
     let e = expect(s, d1, d2);
     c02_impl::<RawShortMessage>(chk, s, d1, d2, &e);
     c02_impl::<StructuredShortMessage>(chk, s, d1, d2, &e);
     c02_impl::<Foreign3>(chk, s, d1, d2, &e);
+    c02_concrete(chk, s, d1, d2, &e);
 }
 
 pub fn run_c02(chk: &Check) {
-    chk.rule("all 128x128x128 valid (status,d1,d2) triples x {Raw,Structured,Foreign3}: every classification method and field accessor against an independently written MIDI-1.0 table; all 256 bytes for ShortMessageType; non-trivial = distinct (impl,triple) cases in which at least one field accessor must return Some (a data-carrying channel message) or the message is Channel Mode");
+    chk.rule("all 128x128x128 valid (status,d1,d2) triples x {Raw,Structured,Foreign3} through generic code, and Raw/Structured once more through method-call syntax on the concrete type (where an inherent method would shadow the trait method) and through a further reference level ((&&x).m(), which would pick up an impl for &T): every classification method and field accessor against an independently written MIDI-1.0 table; all 256 bytes for ShortMessageType; non-trivial = distinct (impl,triple) cases in which at least one field accessor must return Some (a data-carrying channel message) or the message is Channel Mode");
     let nontrivial = AtomicU64::new(0);
     (0x80..=0xFFu8).into_par_iter().for_each(|s| {
         let mut nt = 0u64;
@@ -478,7 +538,7 @@ pub fn run_c02(chk: &Check) {
             }
         }
         nontrivial.fetch_add(nt, Ordering::Relaxed);
-        chk.add_eval(128 * 128 * 3);
+        chk.add_eval(128 * 128 * 7);
     });
     chk.add_nontrivial(nontrivial.load(Ordering::Relaxed));
     // ShortMessageType table
@@ -1026,12 +1086,64 @@ fn c06_test_util(chk: &Check) {
     chk.add_eval(n);
 }
 
+/// Child side of the unwinding probe (see `unwind_probe`): call a generic constructor with a type
+/// of the wrong category from a destructor that runs WHILE the thread is unwinding from another
+/// panic. The constructor must panic there as well (which aborts the process); if it returns, say so.
+pub fn unwind_probe_child(which: &str) -> ! {
+    struct Probe(String);
+    impl Drop for Probe {
+        fn drop(&mut self) {
+            let t = ShortMessageType::NoteOn;
+            let rt = ShortMessageType::TimingClock;
+            match self.0.as_str() {
+                "channel_message" => {
+                    let m = RawShortMessage::channel_message(rt, ch(5), u7(1), u7(2));
+                    println!("SURVIVED channel_message(TimingClock) -> {:?}", m);
+                }
+                "system_common_message" => {
+                    let m = RawShortMessage::system_common_message(t, u7(1), u7(2));
+                    println!("SURVIVED system_common_message(NoteOn) -> {:?}", m);
+                }
+                _ => {
+                    let m = StructuredShortMessage::system_real_time_message(ShortMessageType::SongSelect);
+                    println!("SURVIVED system_real_time_message(SongSelect) -> {:?}", m);
+                }
+            }
+        }
+    }
+    let _p = Probe(which.to_string());
+    panic!("harness: start unwinding");
+}
+
+/// "The generic constructors panic exactly when the given type is not of that category" - also when
+/// the call is made while the thread is already unwinding (a `std::thread::panicking()` guard in the
+/// check would make it vanish exactly there). The second panic aborts the process, so this is run in
+/// a child process: the child must die without printing SURVIVED.
+fn unwind_probe(chk: &Check) {
+    let exe = match std::env::current_exe() {
+        Ok(e) => e,
+        Err(_) => return,
+    };
+    for which in ["channel_message", "system_common_message", "system_real_time_message"] {
+        let out = std::process::Command::new(&exe).arg("unwind-probe").arg(which).stderr(std::process::Stdio::null()).output();
+        chk.add_eval(1);
+        if let Ok(o) = out {
+            let text = String::from_utf8_lossy(&o.stdout).to_string();
+            if text.contains("SURVIVED") {
+                vio!(chk, "C06", "generic-panics-iff-wrong-category", format!("{}/while-unwinding", which), format!("unwind|{}", which),
+                    "called from a destructor during unwinding, the wrong-category call did not panic: {}", text.trim());
+            }
+        }
+    }
+}
+
 pub fn run_c06(chk: &Check) {
     chk.rule("every argument tuple of the 19 specific constructors, all 23 types x full 16x128x128 (or 128x128) data grid for the three generic constructors, for {Raw, Structured, Foreign3}; every in-range argument tuple of the test_util shorthands against the factory call, every argument position through out-of-range values. non-trivial = distinct (implementation, constructor, argument tuple) calls that must produce at least one non-zero data byte, counted at the call site");
     c06_factory::<RawShortMessage>(chk);
     c06_factory::<StructuredShortMessage>(chk);
     c06_factory::<Foreign3>(chk);
     c06_test_util(chk);
+    unwind_probe(chk);
     chk.add_nontrivial(C06_NONZERO.load(Ordering::Relaxed));
     chk.sample(json!({"call": "Structured::pitch_bend_change(ch 7, 8193)", "expected_bytes": [0xE7, 1, 64]}));
     chk.sample(json!({"call": "Raw::system_common_message(SystemExclusiveStart, 0, 0)", "expected": "panic (wrong category)"}));
